@@ -16,7 +16,7 @@ func newGen(w *World, fn *ssa.Function, ct *Contract) *gen {
 		declared: map[string]bool{}, vals: map[ssa.Value]T{}, tuples: map[ssa.Value][]T{},
 		compSort: map[string]string{}, compDef: map[string]string{},
 		reach: map[*ssa.BasicBlock]string{}, exitReach: map[*ssa.BasicBlock]string{},
-		exitState: map[*ssa.BasicBlock]map[string]string{}, edgeCond: map[[2]*ssa.BasicBlock]string{},
+		exitState: map[*ssa.BasicBlock]map[string]string{}, edgeCond: map[[2]*ssa.BasicBlock]string{}, edgeTaken: map[[2]*ssa.BasicBlock]string{},
 		cur: map[string]string{}, params: map[string]T{}, stable: map[*ssa.Alloc]bool{},
 		allocAddr: map[*ssa.Alloc]string{}, callOrd: map[string]int{}, debugVars: map[*ssa.BasicBlock]map[string]T{},
 		loopOrd: map[*ssa.BasicBlock]int{}, closures: map[ssa.Value]*ssa.MakeClosure{}, faTag: map[string]int{}}
@@ -390,6 +390,7 @@ func (g *gen) mergedEntry(ci *cfgInfo, b *ssa.BasicBlock) (reach string, conds [
 		}
 		c := and(er, g.edgeCond[[2]*ssa.BasicBlock{p, b}])
 		cn := g.define(fmt.Sprintf("e%d_%d", p.Index, b.Index), sBool, c)
+		g.edgeTaken[[2]*ssa.BasicBlock{p, b}] = cn
 		conds = append(conds, cn)
 		preds = append(preds, p)
 	}
@@ -397,6 +398,36 @@ func (g *gen) mergedEntry(ci *cfgInfo, b *ssa.BasicBlock) (reach string, conds [
 		return "true", nil, nil
 	}
 	return or(conds...), conds, preds
+}
+
+// viaLoopExit: a term that is true when block b was reached through the exit edge of loop header h
+// (the edge from h to a block outside the loop's body) and through no later early exit of that loop.
+func (g *gen) viaLoopExit(h, b *ssa.BasicBlock, memo map[*ssa.BasicBlock]string) string {
+	if t, ok := memo[b]; ok {
+		return t
+	}
+	memo[b] = "false"
+	if g.ci.body[h][b] || b == g.fn.Blocks[0] {
+		return "false"
+	}
+	var alts []string
+	for _, p := range b.Preds {
+		cn, ok := g.edgeTaken[[2]*ssa.BasicBlock{p, b}]
+		if !ok {
+			continue
+		}
+		switch {
+		case p == h:
+			alts = append(alts, cn)
+		case g.ci.body[h][p]:
+			// early exit
+		default:
+			alts = append(alts, and(cn, g.viaLoopExit(h, p, memo)))
+		}
+	}
+	t := or(alts...)
+	memo[b] = t
+	return t
 }
 
 func (g *gen) mergeStates(conds []string, preds []*ssa.BasicBlock) map[string]string {
@@ -798,6 +829,13 @@ func (g *gen) doBackEdge(ci *cfgInfo, from, h *ssa.BasicBlock, cond string) {
 		for j, inv := range lh.spec.Invariants {
 			lh.addGoal(fmt.Sprintf("loop%d.preserve[%d]", lh.k, j+1), inv.Text, implies(reach, g.specBool(e, inv)), pos)
 		}
+		for j, ev := range lh.spec.Every {
+			cr, ok := g.callReach[fmt.Sprintf("%s#%d", ev.Callee, ev.Ord)]
+			if !ok {
+				cr = "false"
+			}
+			lh.addGoal(fmt.Sprintf("loop%d.every[%d]", lh.k, j+1), ev.Text, implies(reach, cr), pos)
+		}
 	}
 	for j, inv := range g.autoInvariants() {
 		lh.addGoal(fmt.Sprintf("loop%d.auto[%d]", lh.k, j+1), inv, implies(reach, g.specBoolText(e, inv)), pos)
@@ -907,6 +945,7 @@ func (g *gen) frameHeap(modset map[string]bool) {
 }
 
 func (g *gen) retEnv(rs *retSite) *env {
+	g.curBlock = rs.block
 	e := &env{g: g, vars: map[string]T{}, state: rs.state, old: g.initState()}
 	for k, v := range g.params {
 		e.vars[k] = v
